@@ -174,6 +174,39 @@ func (e *Ev) specExpr(s string) Term {
 				return Term{S: smtAnd(versions...), Sort: sBool, T: boolT}
 			}
 		}
+		if len(smtNames) > 1 && q == "forall" {
+			// several bound variables: each one that is used as a plain slice index is re-indexed on
+			// its first use; the accesses together form one multi-pattern
+			bs := body.S
+			var pats []string
+			nb := append([]string{}, binds...)
+			for k, nm := range smtNames {
+				cands := e.qindex[nm]
+				delete(e.qindex, nm)
+				if len(cands) == 0 || nb[k] != fmt.Sprintf("(%s Int)", nm) {
+					continue
+				}
+				off, sel := cands[0][0], cands[0][1]
+				bad := false
+				for _, other := range smtNames {
+					if strings.Contains(off, other) {
+						bad = true
+					}
+				}
+				if bad {
+					continue
+				}
+				p := fmt.Sprintf("%sp", nm)
+				bs = strings.ReplaceAll(bs, "(+ "+off+" "+nm+")", p)
+				bs = strings.ReplaceAll(bs, nm+")", "(- "+p+" "+off+"))")
+				bs = strings.ReplaceAll(bs, nm+" ", "(- "+p+" "+off+") ")
+				nb[k] = fmt.Sprintf("(%s Int)", p)
+				pats = append(pats, strings.ReplaceAll(sel, "(+ "+off+" "+nm+")", p))
+			}
+			if len(pats) > 0 {
+				return Term{S: fmt.Sprintf("(forall (%s) (! %s :pattern (%s)))", strings.Join(nb, " "), bs, strings.Join(pats, " ")), Sort: sBool, T: boolT}
+			}
+		}
 		for _, nm := range smtNames {
 			delete(e.qindex, nm)
 		}
@@ -315,6 +348,34 @@ func (e *Ev) specCall(name string, n *ast.CallExpr) (Term, bool) {
 		return Term{S: fmt.Sprint(e.g().maxBinaryLbp()), Sort: sInt, T: types.Typ[types.Int], Signed: true}, true
 	case "minPostfixLbp":
 		return Term{S: fmt.Sprint(e.g().minPostfixLbp()), Sort: sInt, T: types.Typ[types.Int], Signed: true}, true
+	case "haskey":
+		// haskey(m, k): k is a key of the Go map m
+		m := e.ev(n.Args[0])
+		mt, ok := m.T.Underlying().(*types.Map)
+		if !ok {
+			return e.errorf(n, "haskey: not a map"), true
+		}
+		k := e.toType(e.ev(n.Args[1]), mt.Key(), n)
+		l := &Loc{Kind: "mapelem", Ref: m.S, Idx: k.S, T: mt.Elem(), Name: e.mapHeapBase(mt)}
+		return Term{S: e.mapHas(l), Sort: sBool, T: boolT}, true
+	case "inSlice":
+		// inSlice(s, x): some element of s equals x. Encoded without an existential through a
+		// choice function find$ that returns an index of x whenever there is one (axiom below).
+		sl := e.ev(n.Args[0])
+		st, ok := sl.T.Underlying().(*types.Slice)
+		if !ok {
+			return e.errorf(n, "inSlice: not a slice"), true
+		}
+		x := e.toType(e.ev(n.Args[1]), st.Elem(), n)
+		es := e.sortOf(st.Elem())
+		fn := "find$" + sanitize(es)
+		as := fmt.Sprintf("(Array Int %s)", es)
+		e.g().Pre.add(fmt.Sprintf("(declare-fun %s (%s Int Int %s) Int)", fn, as, es))
+		e.g().Pre.add(fmt.Sprintf("(assert (forall ((a %s) (o Int) (l Int) (x %s) (i Int)) (! (=> (and (<= o i) (< i (+ o l)) (= (select a i) x)) (and (<= o (%s a o l x)) (< (%s a o l x) (+ o l)) (= (select a (%s a o l x)) x))) :pattern ((%s a o l x) (select a i)))))", as, es, fn, fn, fn, fn))
+		h := e.elemHeap(es)
+		a := app("select", h, app("sarr", sl.S))
+		f := app(fn, a, app("soff", sl.S), app("slen", sl.S), x.S)
+		return Term{S: smtAnd(app("<=", app("soff", sl.S), f), app("<", f, app("+", app("soff", sl.S), app("slen", sl.S))), smtEq(app("select", a, f), x.S)), Sort: sBool, T: boolT}, true
 	case "mathint":
 		x := e.asInt(e.ev(n.Args[0]))
 		return Term{S: x, Sort: sInt, T: types.Typ[types.Int], Signed: true}, true
